@@ -24,12 +24,27 @@ values TLC computed.
    exhibited in 2 (a sub-model of the full one); each behaviour is replayed
    and compared after EVERY step.
 After every step: (1) tagged result, (2) the command's own untagged data
-against `last`, (3) a dump `UID FETCH 1:* (UID FLAGS INTERNALDATE RFC822.SIZE
-BODY.PEEK[])` of the selected mailbox through the session itself and of both
-mailboxes through a second, EXAMINE-ing probe connection against the model's
-maps (flags without \\Recent, date as an instant, content by identity).
+against `last`, (3) a dump of the selected mailbox through the session itself
+(`UID FETCH 1:* (UID FLAGS)`: its view) and of BOTH mailboxes through a second,
+EXAMINE-ing probe connection (`UID FETCH 1:* (UID FLAGS INTERNALDATE
+RFC822.SIZE BODY.PEEK[])`) against the model's maps (flags without \\Recent,
+date as an instant, content by identity).  One simulated behaviour in five is
+run with dumps at the end only, so that the probe traffic cannot mask anything.
 Backends: dict, maildir ('++' and 'fs' layouts, without and with a
 dovecot-keywords file that permits the keyword).
+
+Executions are independent (one fresh World each), so they are distributed
+over forked worker processes (VERIF_C10_WORKERS, default 8); every phase has a
+wall-clock budget and says in the evidence when it was cut short.
+
+Verdicts.  A discrepancy is a VIOLATION unless every discrepancy of the step is
+explained by the signature of an open entry of known/C10.json (computed from
+the failing execution: backend, command, lineage of the affected messages).
+After `MaildirCopyLosesContent` the execution goes on with the content of the
+affected copies no longer compared; the other findings end the execution.
+In the random part a step at which the sub-model fixed one resolution of a
+latitude point and the server took the other RFC-permitted one (refusal,
+nothing changed) is recorded as drift, not as a violation.
 """
 
 from __future__ import annotations
@@ -47,7 +62,7 @@ from ..common import Run
 from .. import tlc
 from .. import respparse as rp
 
-SPEC = 'RefMailbox.tla'
+SPEC = os.environ.get('VERIF_C10_SPEC') or 'RefMailbox.tla'   # override: spec-side experiments
 KEYWORD = b'$c10kw'
 FLAG = {'D': b'\\Deleted', 'S': b'\\Seen', 'F': b'\\Flagged', 'A': b'\\Answered',
         'T': b'\\Draft', 'K': KEYWORD, 'R': b'\\Recent'}
@@ -729,6 +744,15 @@ class Exec:
 
     # -- bookkeeping after an accepted step ------------------------------------
 
+    def pre_taint(self, prev: dict, st: dict) -> None:
+        """a MOVE carries the same file to a new UID: content already excused under an
+        open known finding stays excused (nothing else is affected)"""
+        last = st['last']
+        if last['cmd'] == 'move' and last['cond'] == 'OK':
+            for s, d in last['pairs']:
+                if (prev['sel'], s) in self.tainted:
+                    self.tainted.add((last['dest'], d))
+
     def accepted(self, prev: dict, st: dict) -> None:
         last = st['last']
         if last['cond'] != 'OK':
@@ -766,9 +790,13 @@ def signature(ex: Exec, prev: dict, st: dict, discs: list, label: str = '') -> s
         if last['cmd'] in ('copy', 'move') and last['cond'] == 'OK':
             copied |= {(last['dest'], d) for s_, d in last['pairs']
                        if last['cmd'] == 'copy' or (prev['sel'], s_) in ex.copied}
-        if all(d[0] in ('content', 'fetchbody') and len(d) > 2 and d[2]['blank']
-               and (d[2]['box'], d[2]['uid']) in copied for d in discs):
+        rest = [d for d in discs
+                if not (d[0] in ('content', 'fetchbody') and len(d) > 2 and d[2]['blank']
+                        and (d[2]['box'], d[2]['uid']) in copied)]
+        if not rest:
             return 'MaildirCopyLosesContent'
+        if len(rest) < len(discs) and 'MaildirCopyLosesContent' not in _open():
+            rest = discs      # blank copies are excused next to another finding only while open
         # MOVE out of a folder and back: the source's uidlist kept the record, the
         # file name is the same, so the old UID is alive again next to the new one
         moved_in = dict(ex.moved_in)
@@ -776,7 +804,7 @@ def signature(ex: Exec, prev: dict, st: dict, discs: list, label: str = '') -> s
             moved_in[last['dest']] = True
         if all(d[0] == 'uids' and not d[2]['missing'] and d[2]['extra']
                and moved_in[d[2]['box']]
-               and set(d[2]['extra']) <= ex.moved_out[d[2]['box']] for d in discs):
+               and set(d[2]['extra']) <= ex.moved_out[d[2]['box']] for d in rest):
             return 'MaildirMoveBackDuplicate'
     return None
 
@@ -785,15 +813,19 @@ CONTINUABLE = {'MaildirCopyLosesContent'}
 _OPEN = None
 
 
-def excusable(ex: Exec, prev: dict, st: dict, discs: list) -> str | None:
-    """signature of an OPEN known finding after which the execution can go on
-    (the affected messages' content is no longer compared)"""
+def _open() -> set:
     global _OPEN
     if _OPEN is None:
         from ..common import Known
         _OPEN = set(Known('C10').open)
+    return _OPEN
+
+
+def excusable(ex: Exec, prev: dict, st: dict, discs: list) -> str | None:
+    """signature of an OPEN known finding after which the execution can go on
+    (the affected messages' content is no longer compared)"""
     sig = signature(ex, prev, st, discs)
-    if sig in CONTINUABLE and sig in _OPEN:
+    if sig in CONTINUABLE and sig in _open():
         return sig
     return None
 
@@ -934,6 +966,7 @@ def _sim_task(task) -> dict:
             discs = ex.compare_obs(prev, st, meta, obs)
             ex.last_obs, ex.last_obs_discs = obs, list(discs)
             if not end_only or k == len(steps) - 1 or discs:
+                ex.pre_taint(prev, st)
                 discs = discs + ex.compare_dumps(st, ex.dump(st['sel']))
                 res['full'] += 1
             if discs:
@@ -1225,6 +1258,7 @@ def main(tier: str) -> int:
             key = (kw, frozenset(drv.policy.get(bname, set())))
             drv.sim_phase(bname, sims[key][:num], budget)
         run.notes['per_backend'] = drv.stats
+        run.notes['workers'] = drv.workers
         run.notes['latitude_resolutions_exhibited'] = {b: sorted(p) for b, p in drv.policy.items()}
         run.cov['exhaustive'] = not quick and not any(
             s.get('budget_exhausted') for s in drv.stats.values())
